@@ -620,10 +620,11 @@ func (ctx *actorContext) ActorOf(provider ActorProvider, configurator ...ActorDe
 
 	ctx.setExpireDuration()
 
-	// a parent that is terminating has already told its children to stop, and a terminated one will never wait for
-	// anybody again: a child created from then on is stopped at once, otherwise the termination in progress would wait
-	// for it for ever (Shutdown would hang) or the child would outlive its parent and stay registered
-	if parent.status.Load() >= actorStatusTerminating {
+	// a parent that is restarting or terminating has already told its children to stop, and a terminated one will never
+	// wait for anybody again: a child created from then on is stopped at once, otherwise the restart or termination in
+	// progress would wait for it for ever (the actor would stay suspended, Shutdown would hang) or the child would outlive
+	// its parent and stay registered
+	if parent.status.Load() != actorStatusAlive {
 		parent.Terminate(ref, parent.gracefullyTerminated)
 	}
 	return ref
